@@ -148,6 +148,10 @@ impl<'r> G<'r> {
                 let (n, d) = cands[self.rng.usize(cands.len())].clone();
                 (n, d)
             }
+        } else if self.rng.chance(1, 6) {
+            // an (implicit) array that shares its name with a scalar variable: two different objects
+            self.feat("array-named-like-a-scalar");
+            (self.rng.s(&["A", "X", "V"]), vec![10])
         } else if self.rng.coin() {
             ("E", vec![10])
         } else {
@@ -495,6 +499,23 @@ impl<'r> G<'r> {
                     self.emit(v);
                 }
                 20 => self.data_line(),
+                21 if !self.funs.is_empty() && self.opts.type_mistake_permille == 0 => {
+                    // a second definition of an existing function (same name, same parameter list, another body)
+                    // executed later in the same run replaces the first one
+                    let fi = self.rng.usize(self.funs.len());
+                    let (name, params, is_str) = (self.funs[fi].name, self.funs[fi].params.clone(), self.funs[fi].is_str);
+                    let body = if is_str {
+                        if params.contains(&"A$") { var("A$") } else { Expr::Str(self.rng.s(&["again", "", "R"]).to_string()) }
+                    } else {
+                        bin(Bin::Add, bin(Bin::Mul, var(params[0]), num(self.rng.range(2, 9))), num(self.rng.range(100, 900)))
+                    };
+                    self.feat("DEF-redefinition");
+                    let mut line = vec![Stmt::Def { name: name.to_string(), params: params.iter().map(|s| s.to_string()).collect(), body }];
+                    if self.rng.coin() {
+                        line.push(self.print_stmt());
+                    }
+                    self.emit(line);
+                }
                 _ => self.line_of_simples(),
             }
         }
@@ -654,7 +675,24 @@ impl<'r> G<'r> {
         }
         self.feat("FOR");
         let v = free[self.rng.usize(free.len())];
-        let (from, to, step): (Expr, Expr, Option<Expr>) = match self.rng.below(8) {
+        let (from, to, step): (Expr, Expr, Option<Expr>) = match self.rng.below(10) {
+            8..=9 => {
+                // bounds and step held in variables: a plain variable name directly in front of TO / STEP / the
+                // end of the statement (keyword recognition after an identifier)
+                self.feat("FOR-variable-bounds");
+                let lo = self.rng.s(&["V", "W"]);
+                let hi = self.rng.s(&["Z", "Y"]);
+                let st = self.rng.s(&["D", "C"]);
+                let (a, b, c) = match self.rng.below(3) { 0 => (1, 5, 2), 1 => (4, 1, -1), _ => (0, 3, 1) };
+                self.emit(vec![
+                    Stmt::Let { target: LValue::scalar(lo), expr: num(a), keyword: false },
+                    Stmt::Let { target: LValue::scalar(hi), expr: num(b), keyword: false },
+                    Stmt::Let { target: LValue::scalar(st), expr: num(c), keyword: false },
+                ]);
+                let step = match self.rng.below(3) { 0 => None, 1 => Some(var(st)), _ => Some(num(c)) };
+                let step = if step.is_none() && a > b { Some(var(st)) } else { step };
+                (if self.rng.coin() { var(lo) } else { num(a) }, var(hi), step)
+            }
             0..=2 => (num(self.rng.range(0, 2)), num(self.rng.range(2, 4)), None),
             3 => (num(self.rng.range(3, 5)), num(self.rng.range(0, 2)), Some(num(-1))),
             4 => (num(1), num(2), Some(Expr::Num(".5".into()))),
